@@ -46,7 +46,8 @@ Inductive base_event :=
 | BLend (i : nat)                  (* u.make_ref(u.clone()) *)
 | BCount (i : nat)                 (* observe Arc::strong_count *)
 | BCallOwn (i : nat) (m a : N)     (* move the instance into a scope, call, leave the scope *)
-| BArm (n : N).                    (* the next real function (1) / default body (2) panics *)
+| BArm (n : N)                     (* the next real function (1) / default body (2) panics *)
+| BLive.                           (* observe the numbers of live instrumented values *)
 
 Record event := { ev_ctx : ctx; ev_base : base_event }.
 
@@ -123,6 +124,31 @@ Definition call_panics (w : world) (act : action) : bool :=
   | _ => match user_panic (w_armed w) act with Some _ => true | None => false end
   end.
 
+(* values stored in the mock: a single-use value until it is taken, a
+   repeatedly used value until the shared state is released *)
+Definition stored_in_pattern (s : state) (m : N) (i : nat) (p : pattern) : N :=
+  (fix go (rs : list (N * resp)) (j : nat) : N :=
+     match rs with
+     | [] => 0
+     | (_, RReturn true _) :: rs' => (if taken s m i j then 0 else 1) + go rs' (S j)
+     | (_, RReturn false _) :: rs' => 1 + go rs' (S j)
+     | _ :: rs' => go rs' (S j)
+     end) (p_resps p) 0%nat.
+
+Definition stored_in_method (s : state) (m : N) (mk : mocker) : N :=
+  (fix go (ps : list pattern) (i : nat) : N :=
+     match ps with
+     | [] => 0
+     | p :: ps' => stored_in_pattern s m i p + go ps' (S i)
+     end) (m_pats mk) 0%nat.
+
+(* (live Val, live Uniq): methods 4 and 5 return the non-Clone type *)
+Definition live_values (cfg : config) (s : state) (handles : N) : N * N :=
+  if handles =? 0 then (0, 0) else
+  fold_left (fun '(v, u) '(m, mk) =>
+               if (m =? 4) || (m =? 5) then (v, u + stored_in_method s m mk) else (v + stored_in_method s m mk, u))
+            (c_table cfg) (0, 0).
+
 Definition show_panic (o : option string) : string :=
   match o with None => "ok" | Some msg => "P:" ++ msg end.
 
@@ -169,6 +195,9 @@ Definition step (w : world) (e : event) : world * string :=
     | Some it => (w, dec (strong_count (w_insts w)))
     end
   | BArm n => (set_armed w n, "ok")
+  | BLive =>
+    let '(v, u) := live_values (w_cfg w) (w_state w) (strong_count (w_insts w)) in
+    (w, "live:" ++ dec v ++ ":" ++ dec u)
   | BClone i =>
     match live_inst w i with
     | None => (w, "invalid")
@@ -284,6 +313,7 @@ Definition lend_ (i : N) := BLend (N.to_nat i).
 Definition count_ (i : N) := BCount (N.to_nat i).
 Definition callown_ (i m a : N) := BCallOwn (N.to_nat i) m a.
 Definition arm_ (n : N) := BArm n.
+Definition live_ := BLive.
 Definition Pt (m d : option N) (ops : list op) : pat_spec :=
   {| ps_matcher := m; ps_dbg := d; ps_ops := ops |}.
 Definition Kase (bc : buildcfg) (partial : bool) (ts : list terminal) (es : list event) : case :=
